@@ -114,8 +114,11 @@ func build(w *sim.World) {
 		extra := simrt.Choose(8)
 		w.Spawn(fmt.Sprintf("worker%d", i), func() { worker(wd, i, sub, extra) })
 	}
-	os := simrt.Raw()
-	w.Spawn("operator", func() { operator(nRegs, os) })
+	nOps := 1 + simrt.Choose(2)
+	for k := 0; k < nOps; k++ {
+		os := simrt.Raw()
+		w.Spawn(fmt.Sprintf("operator%d", k), func() { operator(nRegs, os) })
+	}
 }
 
 func operator(n int, sub uint64) {
@@ -165,7 +168,18 @@ func receiver(wd *world, n int, sub uint64) {
 			f.HasPort = false
 		}
 		tx := pipe.TxParams{ConfFCnt: uint32(r.Intn(1 << 17)), TxDR: uint8(r.Intn(16)), TxCh: uint8(r.Intn(72))}
-		wire, stage, err := pipe.Seal(&s, f.ToLib(), tx)
+		// the sender hands its own application buffer to the library
+		lib := f.ToLib()
+		var own, ownCopy []byte
+		if f.HasPort && f.FPort > 0 && len(f.AppBytes) > 0 {
+			own = append([]byte(nil), f.AppBytes...)
+			ownCopy = append([]byte(nil), own...)
+			lib.MACPayload.(*lorawan.MACPayload).FRMPayload = []lorawan.Payload{&lorawan.DataPayload{Bytes: own}}
+		}
+		wire, stage, err := pipe.Seal(&s, lib, tx)
+		if own != nil && !bytes.Equal(own, ownCopy) {
+			simrt.Report("sender.buffer-modified:"+stage, fmt.Sprintf("encrypt / set MIC / marshal changed the application buffer the caller put into the frame: %x -> %x", ownCopy, own))
+		}
 		if err != nil {
 			simrt.Report("iso.seal:"+stage, fmt.Sprintf("spec-valid frame %v refused at %s: %v", f, stage, err))
 			continue
@@ -349,18 +363,14 @@ func processFrame(j *job, r *sim.Rand) {
 	if eA == nil {
 		g0 := genGet()
 		orig := append([]byte(nil), bA...)
-		for i := range bA {
-			bA[i] = 0xa5
-		}
+		ownerWriteFill(bA, 0xa5)
 		bA2, _ := j.phy.MarshalBinary()
 		if !bytes.Equal(bA2, orig) && genGet() == g0 {
 			simrt.Report("alias.encode:PHYPayload.MarshalBinary", fmt.Sprintf("overwriting the bytes returned by MarshalBinary changed the frame: it marshalled to %x, now %x", orig, bA2))
 		}
 		if t, err := j.ref.MarshalText(); err == nil {
 			t0 := append([]byte(nil), t...)
-			for i := range t {
-				t[i] = '!'
-			}
+			ownerWriteFill(t, '!')
 			if t2, _ := j.ref.MarshalText(); !bytes.Equal(t2, t0) {
 				simrt.Report("alias.encode:PHYPayload.MarshalText", "overwriting the text returned by MarshalText changed the frame")
 			}
